@@ -105,11 +105,25 @@ def run(ctx):
     for cls, fl in sorted(byclass.items()):
         r.shuffle(fl); rare_sel += fl[:(14 if quick else 300) if cls not in ("quiet", "capture") else (4 if quick else 50)]
     ctx.cov["mate1_classes"] = {k: len(v) for k, v in sorted(byclass.items())}
+    ctx.log(f"classified {len(rare)} rare-class candidates")
     mate1 = rare_sel + mate1
     rest = [f for f, b in zip(cands, m1l) if b == "0"]
-    rc, sol, _ = vlib.run_lines(vh, [f"mate solve 3 {SOLVE_BUDGET} {f}" for f in rest[:1500 if quick else 40000]])
+    sub = rest[:450 if quick else 40000]
+    import concurrent.futures as _cf2
+    nch = 8
+    with _cf2.ThreadPoolExecutor(nch) as ex:       # the solver is single-threaded: split the classification over processes
+        outs = list(ex.map(lambda pt: vlib.run_lines(vh, [f"mate solve 3 {SOLVE_BUDGET // 3} {f}" for f in pt])[1], [sub[i::nch] for i in range(nch)]))
+    sol = [None] * len(sub)
+    for i, o in enumerate(outs): sol[i::nch] = o
+    rest = sub
     mates23 = [f for f, s in zip(rest, sol) if s.startswith("win ")]
     nomate = [f for f, s in zip(rest, sol) if s.startswith("nowin ")]
+    # longer forced mates with an exact oracle: pawnless <= 4-man positions won in 4..12 moves
+    few = [f for f in rest if sum(1 for c in f.split()[0] if c.isalpha()) <= 4 and not any(c in "Pp" for c in f.split()[0])]
+    rc, dvl, _ = vlib.run_lines(vh, [f"dtm of {f}" for f in few])
+    longm = [f for f, v in zip(few, dvl) if v.startswith("win") and 4 <= int(v.split()[1]) <= 12]
+    r.shuffle(longm); longm = longm[:24 if quick else 1500]
+    ctx.cov["long_mate_roots"] = len(longm)
     r.shuffle(mates23); r.shuffle(nomate)
     n1, n23, n0 = (60, 60, 25) if quick else (2500, 2500, 600)
     mate1, mates23, nomate = mate1[:n1 + len(rare_sel)], mates23[:n23], nomate[:n0]
@@ -124,6 +138,10 @@ def run(ctx):
         i = r.randrange(len(optsets))
         for d in (1, 2, 3, 5) if quick else (1, 2, 3, 4, 5, 7):
             jobs_by_set[i].append((f, f"go depth {d}!")); m1_jobs.add((f, f"go depth {d}"))
+    for f in longm:
+        i = r.randrange(len(optsets))
+        for d in r.sample([7, 8, 9, 10, 11, 12] if quick else [8, 10, 12, 14, 16], 2 if quick else 4):
+            jobs_by_set[i].append((f, f"go depth {d}" + ("!" if r.random() < 0.5 else "")))
     for f in mates23 + nomate:
         i = r.randrange(len(optsets))
         men = sum(1 for c in f.split()[0] if c.isalpha())
@@ -133,10 +151,12 @@ def run(ctx):
     sessions = []
     for i, o in enumerate(optsets):
         js = jobs_by_set[i]
-        for c in range(0, len(js), 60):
-            sessions.append((nets[(i + c) % len(nets)], o, js[c:c + 60]))
-    with cf.ThreadPoolExecutor(max(2, vlib.NCPU // 3)) as ex:
+        for c in range(0, len(js), 30):
+            sessions.append((nets[(i + c) % len(nets)], o, js[c:c + 30]))
+    ctx.log(f"{sum(len(s[2]) for s in sessions)} searches in {len(sessions)} sessions")
+    with cf.ThreadPoolExecutor(max(2, vlib.NCPU // 2)) as ex:
         recs = [x for rs in ex.map(engine_job, sessions) for x in rs]
+    ctx.log("searches done")
     audit(ctx, vh, recs, m1_jobs)
     ctx.cov["rule"] = ("positions: sparse endgames (K+Q/R/minor vs K(+piece/pawn), weak king near the edge), synthetic motifs, late positions of random games; classified by the solver into mate-in-1 / mate-in-2..3 / "
                        "no mate within 3 (all three classes searched); x depth 1..14 x {Hash 1..64, Threads 1..4, UseNullMove on/off} x 3 nets, with and without a cleared hash; every `score mate N` "
@@ -147,7 +167,7 @@ def run(ctx):
 
 def audit(ctx, vh, recs, m1_jobs):
     stats = {"searches": 0, "positive_mate_claims": 0, "negative_mate_claims": 0, "claims_verified_by_certificate": 0, "claims_unverified_N_gt_3": 0,
-             "solver_unknown": 0, "mate1_roots": 0, "bestmove_keeps_mate_checked": 0}
+             "solver_unknown": 0, "mate1_roots": 0, "bestmove_keeps_mate_checked": 0, "claims_verified_by_dtm": 0}
     claims = {}   # (fen, kind, N) -> example record
     post = []     # (fen, bestmove, N, rec): after bestmove the opponent must be lost within N-1
     for rec in recs:
@@ -186,7 +206,22 @@ def audit(ctx, vh, recs, m1_jobs):
             post.append((rec["fen"], bm["best"], 1, rec))
     # ---- certificates for the root claims
     keys = [k for k in claims if k[2] <= 3]
-    stats["claims_unverified_N_gt_3"] = sum(1 for k in claims if k[2] > 3)
+    # claims with N > 3: exact distance to mate from the (C12-certified) tablebase generator when the root is a pawnless <= 4-man position
+    big = [k for k in claims if k[2] > 3]
+    stats["claims_verified_by_dtm"] = 0
+    if big:
+        rc, dv, _ = vlib.run_lines(vh, [f"dtm of {k[0]}" for k in big])
+        unver = 0
+        for (f, kind, n), v in zip(big, dv):
+            rec, line = claims[(f, kind, n)]
+            base = {"kind": "property-predicate", "fen": f, "go": rec["go"], "opts": rec["opts"], "net": rec.get("net"), "claim": line, "dtm": v}
+            if v in ("none", "bad-op") or v.startswith("err") or v == "gen-failed": unver += 1; continue
+            want = "win" if kind == "win" else "loss"
+            if v.startswith(want) and int(v.split()[1]) <= n: stats["claims_verified_by_dtm"] += 1
+            else: ctx.violation(f"announced mate is not real: `{line}` on `{f}` but the exact value is `{v}`", base)
+        stats["claims_unverified_N_gt_3"] = unver
+    else:
+        stats["claims_unverified_N_gt_3"] = 0
     sl = [(f"mate solve {n} {SOLVE_BUDGET} {f}" if kind == "win" else f"mate lose {n} {SOLVE_BUDGET} {f}") for (f, kind, n) in keys]
     rc, sol, _ = vlib.run_lines(vh, sl) if sl else (0, [], "")
     q, qm = [], []
